@@ -4,9 +4,9 @@ CONSTANTS
   IncMax = 0
   RollNs = {0}
   Callers = {"a", "b", "c"}
-  IncsPer = 3
-  Reads = 3
-  Start = {0, 5, 6, 7, 8, 15}
+  IncsPer = 2
+  Reads = 2
+  Start = {0, 6, 7, 8}
   Alg = "total"
   Locked = FALSE
 SPECIFICATION SpecConc
